@@ -458,7 +458,9 @@ def _maybe_apply_am_pm(t: Time, ampm_match: str) -> Time:
         return t
     if ampm_match is None:
         return t
-    if ampm_match.lower().startswith("a") and t.hour <= 12:
+    if ampm_match.lower().startswith("a") and t.hour == 12:
+        return Time(hour=0, minute=t.minute)
+    if ampm_match.lower().startswith("a") and t.hour < 12:
         return t
     if ampm_match.lower().startswith("p") and t.hour < 12:
         return Time(hour=t.hour + 12, minute=t.minute)
